@@ -43,6 +43,28 @@ def side_to_py(side):
     return float(side)
 
 
+def neg_side(side):
+    """instance-level negation of one bound side (None stays None)"""
+    if side is None:
+        return None
+    if isinstance(side, dict):
+        if "vec" in side:
+            return {"vec": [-x for x in side["vec"]]}
+        vals = side["v"]
+        return {"t": list(side["t"]), "v": [[-x for x in r] if isinstance(r, list) else -r for r in vals]}
+    return -side
+
+
+def user_pair(v):
+    """the (lo, hi) the user writes into bounds(): `v["lo"]`, `v["hi"]` are the bounds of the variable itself
+    (canonical coordinates); with `v["bkey"] = {"name": alias, "sign": -1}` the entry is keyed by the negated
+    alias and holds the bounds of the alias: (-hi, -lo)"""
+    bk = v.get("bkey")
+    if bk and bk["sign"] < 0:
+        return neg_side(v["hi"]), neg_side(v["lo"])
+    return v["lo"], v["hi"]
+
+
 class RecordingSolver:
     """stands in for `ca.nlpsol`: records what it is handed, answers with a chosen point"""
 
@@ -140,6 +162,8 @@ def make_problem(inst, solver=None, base_mixins=(), overrides=None):
                 res.append(expr)
             self._res = ca.vertcat(*res) if res else ca.MX()
             self._ar = AliasRelation()
+            for a in inst.get("aliases", []):   # a["name"] = (+/-) a["of"]
+                self._ar.add(a["of"], ("-" if a["sign"] < 0 else "") + a["name"])
             self._path_syms = [ca.MX.sym(v["name"], v["size"]) for v in paths]
             self._extra_syms = [ca.MX.sym(v["name"], v["size"]) for v in extras]
             self._sym = sym
@@ -210,7 +234,8 @@ def make_problem(inst, solver=None, base_mixins=(), overrides=None):
             for v in V:
                 if v.get("nokey"):
                     continue
-                b[v["name"]] = (side_to_py(v["lo"]), side_to_py(v["hi"]))
+                lo, hi = user_pair(v)
+                b[v["bkey"]["name"] if v.get("bkey") else v["name"]] = (side_to_py(lo), side_to_py(hi))
             return b
 
         def history(self, ensemble_member):
